@@ -95,6 +95,7 @@ type SymConfig struct {
 	Prog         *Program
 	MaxDepth     int
 	MaxPaths     int
+	MaxRecursion int // how many activations of one function may be open below its first (0: recursion is not followed)
 	Collapse     bool                     // collapse effect-free diamonds (logging)
 	CollapsePure bool                     // also collapse effect-free diamonds that only compute values (join phis become opaque)
 	NoInline     map[*ssa.Function]bool   // never inline these
@@ -1110,7 +1111,7 @@ func (se *symExec) eval(st *state, fr *frame, v ssa.Value, pristine bool) *Term 
 		}
 		name := "dyn"
 		if f := in.Call.StaticCallee(); f != nil {
-			name = f.String()
+			name, args = canonicalCall(f, args)
 		} else if in.Call.IsInvoke() {
 			name = "." + in.Call.Method.Name()
 			args = append([]*Term{val(in.Call.Value)}, args...)
@@ -1250,12 +1251,13 @@ func (se *symExec) shouldInline(st *state, callee *ssa.Function, depth int) bool
 	if depth >= se.cfg.MaxDepth {
 		return false
 	}
+	rec := 0
 	for _, f := range st.frames {
 		if f.fn == callee {
-			return false
+			rec++
 		}
 	}
-	return true
+	return rec <= se.cfg.MaxRecursion
 }
 
 // call executes a call instruction; returns true if a frame was pushed.
@@ -1353,7 +1355,7 @@ func (se *symExec) call(st *state, fr *frame, in *ssa.Call) bool {
 	name := "dyn"
 	pure := false
 	if callee != nil {
-		name = callee.String()
+		name, args = canonicalCall(callee, args)
 		pure = isPureExternal(callee)
 	} else if c.IsInvoke() {
 		name = "." + c.Method.Name()
@@ -1453,6 +1455,9 @@ func (se *symExec) summary(fn *ssa.Function) *modSummary {
 				if callee == nil {
 					s.unknown = true
 					continue
+				}
+				if callee == fn {
+					continue // a direct recursive call writes nothing the function does not write itself
 				}
 				cs := se.summary(callee)
 				if cs.unknown {
@@ -1587,6 +1592,9 @@ func (se *symExec) inertInstr(in ssa.Instruction, region map[*ssa.BasicBlock]boo
 				return true
 			}
 			return false
+		}
+		if callee := x.Call.StaticCallee(); callee != nil && callee == in.Parent() {
+			return true // a direct recursive call has the effects of the function itself
 		}
 		return se.isInert(x.Call.StaticCallee())
 	}
@@ -1876,4 +1884,14 @@ func sortedKeys[V any](m map[string]V) []string {
 	}
 	sort.Strings(ks)
 	return ks
+}
+
+// canonicalCall: library shorthands are named as the call they are defined to be, so that rules recognise one spelling:
+// os.Open(name) is os.OpenFile(name, O_RDONLY, 0).
+func canonicalCall(callee *ssa.Function, args []*Term) (string, []*Term) {
+	if callee.Pkg != nil && callee.Pkg.Pkg.Path() == "os" && callee.Name() == "Open" && callee.Signature.Recv() == nil && len(args) == 1 {
+		zero := func() *Term { return constTerm(constant.MakeInt64(0), types.Typ[types.Int]) }
+		return "os.OpenFile", []*Term{args[0], zero(), zero()}
+	}
+	return callee.String(), args
 }
